@@ -61,7 +61,12 @@ def run_program(rng, res, pid):
                 elif op == 'call': x(rand_vals(rng, np.asarray(x.val).size or 1) if np.asarray(x.val).ndim else rand_vals(rng, 1)[0])
                 elif op == 'setitem':
                     if np.asarray(x.val).ndim > 0 and np.asarray(x.val).size > 0: x[0] = rand_vals(rng, 1)[0]
-                elif op == 'resize': x.resize(s, nw, nf); nontriv = True
+                elif op == 'resize':
+                    k = rng.random(); nontriv = True
+                    if k < 0.4: x.resize(s, nw, nf)
+                    elif k < 0.6: x.resize(signed=not x.signed)                 # related formats: only the signedness (and maybe the word) changes
+                    elif k < 0.8: x.resize(not x.signed, x.n_word + rng.choice([0, 1, 4]), x.n_frac)
+                    else: x.resize(dtype='fxp-%s%d/%d' % ('u' if x.signed else 's', x.n_word + rng.choice([0, 0, 2]), x.n_frac))
                 elif op == 'like': new = x.like(y)
                 elif op in ('add', 'sub', 'mul'):
                     if np.asarray(x.val).shape == np.asarray(y.val).shape:
